@@ -261,7 +261,8 @@ pub fn gen(rng: &mut Rng, tier: Tier, out: &mut Vec<String>) {
     // visible in the gap between them (whatever a rasterizer decides for a whole span from its end
     // pixels, or from its first pixel, shows here); the far triangle is submitted last
     for _ in 0..(if tier == Tier::Quick { 40 } else { 800 }) {
-        let (w, h) = (20 + rng.below(50) as u32, 4 + rng.below(9) as u32);
+        // (one in five is 70..150 px wide: spans well beyond 64 / 128 px)
+        let (w, h) = (if rng.chance(1, 5) { 70 + rng.below(81) as u32 } else { 20 + rng.below(50) as u32 }, 4 + rng.below(9) as u32);
         let mut line = format!(
             "scene door=r tgt=fb dims={w}x{h} vp=0,0,{w},{h} cull=n sort=n test=l cw=1 dw=1 sh=0 proj=none zinit={} k=1 sel=0",
             h32(0.0)
